@@ -25,3 +25,20 @@ func init() {
 func init() {
 	register("C07", Rule{Name: "E1.rows", Run: runRows("C07")})
 }
+
+func init() {
+	register("C02", Rule{Name: "E6", Run: runE6})
+}
+
+func init() {
+	register("C18", Rule{Name: "E6", Run: runE6}, Rule{Name: "E3.state", Run: runGlobalState})
+}
+
+func init() {
+	register("C13", Rule{Name: "E1.rows", Run: runRows("C13")}, Rule{Name: "E1.search", Run: runSearchLoops("Reference")}, Rule{Name: "E7.tokens", Run: runTokenTable},
+		Rule{Name: "E3.alias", Run: runAppendAlias}, Rule{Name: "E2", Run: runE2})
+}
+
+func init() {
+	register("C12", Rule{Name: "E8", Run: runE8}, Rule{Name: "E1.rows", Run: runRows("C12")})
+}
